@@ -1064,7 +1064,10 @@ def run(tier, rep):
         elif 'err' in g:
             rep.violation('C06|accept|%s|rejected-valid-text:%s|%s' % (c['mode'], g['err'], diffclass(expect[cid], None, fs)), w)
         elif g.get('dump') != expect[cid]:
-            rep.violation('C06|accept|%s|wrong-tree|%s' % (c['mode'], diffclass(expect[cid], g.get('dump'), fs)), w)
+            if 'decorator' in fs and undot_decorators(g.get('dump')) == expect[cid]:
+                rep.violation('C06|accept|wrong-tree|dotted-decorator-parsed-as-one-Name', w)
+            else:
+                rep.violation('C06|accept|%s|wrong-tree|%s' % (c['mode'], diffclass(expect[cid], g.get('dump'), fs)), w)
         if len(samples) < 3 and len(fs) >= 5 and cid.startswith('m'):
             samples.append({'text': c['src'], 'mode': c['mode'], 'expected_dump': expect[cid][:400], 'spelling_features': fs})
     # ---------------- (B) literal values -----------------
@@ -1160,7 +1163,7 @@ def run(tier, rep):
         if g.get('panic') or g.get('crash'):
             rep.violation('C06|reject|%s|panic' % feat, w)
         elif 'dump' in g:
-            sub = rej_class(c['src'], g['dump']) if feat == 'mutation' else c['id'].split(':')[-1]
+            sub = rej_class(c['src'], g['dump']) if feat == 'mutation' else 'text=' + c['src'].strip()[:40]
             rep.violation('C06|reject|%s|accepted-text-outside-grammar|%s' % (feat, sub), w)
         elif g.get('err') not in ('SyntaxError', 'IndentationError', 'TabError'):
             rep.violation('C06|reject|%s|error-is-not-SyntaxError:%s' % (feat, g.get('err')), w)
@@ -1174,6 +1177,17 @@ def run(tier, rep):
     rep.assumptions = ['CPython 3.11 ast converted to the 3.4 dump shape is the second oracle; the generator stays inside the 3.4 grammar', 'leaves in tree cases are simple (ints, plain strings) so that the dump text is unambiguous; literal VALUES are checked separately by evaluation']
     if disagree > 0.02 * max(1, len(cases)):
         rep.broke('generator and CPython disagree on %d cases: %s' % (disagree, common.short(dis_samples, 900)))
+
+
+def undot_decorators(dump):
+    """Rewrite Name(id='a.b.c', ctx=Load()) (gpython's rendering of a dotted decorator) as the Attribute chain it stands for."""
+    def repl(m):
+        parts = m.group(1).split('.')
+        out = "Name(id='%s', ctx=Load())" % parts[0]
+        for p_ in parts[1:]:
+            out = "Attribute(value=%s, attr='%s', ctx=Load())" % (out, p_)
+        return out
+    return re.sub(r"Name\(id='([A-Za-z_0-9]+(?:\.[A-Za-z_0-9]+)+)', ctx=Load\(\)\)", repl, dump or '')
 
 
 def diffclass(exp, got, fs):
@@ -1199,6 +1213,8 @@ def lit_class(t):
         kind = 'bytes' if 'b' in pre else 'str'
         if 'r' in pre:
             kind += '-raw'
+        if 'r' not in pre and kind == 'str' and re.search(r'(?<!\\)(\\\\)*\\N', s):
+            return 'str|esc=N'      # a named-character escape anywhere in the literal
         m = re.search(r'\\(N|x|u|U|[0-7]|\n|.)', s)
         return kind + ('|esc=' + ('nl' if m and m.group(1) == '\n' else (m.group(1) if m and m.group(1).isalnum() else 'other')) if m else '')
     if t.endswith(('j', 'J')):
